@@ -187,6 +187,14 @@ theorem c08_lookup_mem_kw (n : String) (v : PyVal) : ∀ kw : List (String × Py
       cases h; subst this; simp
     · simp [c08_lookup_mem_kw n v rest h]
 
+theorem c08_jsonDocP_mem : ∀ (kvs : List (PyVal × PyVal)), jsonDocP kvs = true → ∀ kv ∈ kvs, jsonDoc kv.2 = true
+  | [], _, _, h => by simp at h
+  | (k, w) :: rest, hd, kv, h => by
+    simp only [jsonDocP, and_true_iff'] at hd
+    rcases List.mem_cons.mp h with rfl | h'
+    · exact hd.1.2
+    · exact c08_jsonDocP_mem rest hd.2 kv h'
+
 theorem c08_jsonDocL_mem : ∀ (xs : List PyVal), jsonDocL xs = true → ∀ x ∈ xs, jsonDoc x = true
   | [], _, _, h => by simp at h
   | y :: ys, hd, x, h => by
@@ -329,6 +337,59 @@ theorem c08_class_core (O : Oracles) (opts : DeserOpts) (c : ClassOpts) (fields 
     by simp [h1, vConstruct, hbind, hattrs]⟩
 
 
+/-- in the exact fragment no direct element is an `Optional[X]`: the element-position wrapper is the identity -/
+theorem c08_elemWrap_exact (f : FieldDecl) (s : PyVal) (h : isOptionalF f = false) : elemWrap f s = s := by
+  cases f <;> simp [isOptionalF] at h <;> simp [elemWrap, isOptional]
+
+/-! ### maps -/
+
+theorem c08_deser_strkey (O : Oracles) (opts : DeserOpts) (ks : String) :
+    deser O opts false (.string none none none) (.str ks) = .ok (.str ks) := by
+  simp [deser, PyVal.isNone, dValidated, vString, vPattern, geLen, leLen]
+
+theorem c08_validate_strkey (O : Oracles) (ks : String) :
+    validate O (.string none none none) (.str ks) = .ok (.str ks) := by
+  simp [validate, vString, vPattern, geLen, leLen]
+
+/-- the per-entry pass of `deserialize_map` over a JSON object: every value accepted, every key a string -/
+theorem c08_map_entries (O : Oracles) (opts : DeserOpts) (vf : FieldDecl) (P : PyVal → Prop)
+    (hacc : ∀ w, P w → Accepted O opts false vf w) :
+    ∀ kvs : List (PyVal × PyVal), jsonDocP kvs = true →
+      (∀ kv ∈ kvs, P kv.2) →
+      ∃ r, mapE (fun (kv : PyVal × PyVal) =>
+          bindE (deser O opts false vf kv.2) fun v' =>
+          bindE (deser O opts false (.string none none none) kv.1) fun k' =>
+            .ok (k', v')) kvs = .ok r
+        ∧ r.all (fun kv => (match kv.1 with | .str _ => true | _ => false) && (validate O vf kv.2).toBool) = true
+  | [], _, _ => ⟨[], rfl, rfl⟩
+  | (k, w) :: rest, hj, hp => by
+    simp only [jsonDocP, and_true_iff'] at hj
+    obtain ⟨y, y', hd, hv⟩ := hacc w (hp (k, w) (by simp))
+    obtain ⟨r, hr, hall⟩ := c08_map_entries O opts vf P hacc rest hj.2 (fun kv hkv => hp kv (by simp [hkv]))
+    cases k <;> simp [isStrJ] at hj
+    rename_i ks
+    refine ⟨(.str ks, y) :: r, ?_, ?_⟩
+    · simp only [mapE, hd, hr, c08_deser_strkey, bindE_ok]
+    · simp only [List.all_cons, and_true_iff']
+      exact ⟨by simp [hv, Except.toBool], hall⟩
+
+/-- the per-entry validation of a Map whose keys are strings and whose values validate -/
+theorem c08_map_validate (O : Oracles) (vf : FieldDecl) : ∀ es : List (PyVal × PyVal),
+    es.all (fun kv => (match kv.1 with | .str _ => true | _ => false) && (validate O vf kv.2).toBool) = true →
+    ∃ r', mapE (fun (kv : PyVal × PyVal) =>
+        bindE (validate O (.string none none none) kv.1) fun k' =>
+        bindE (validate O vf kv.2) fun v' => .ok (k', v')) es = .ok r'
+  | [], _ => ⟨[], rfl⟩
+  | (k, w) :: rest, h => by
+    simp only [List.all_cons, and_true_iff'] at h
+    obtain ⟨r', hr'⟩ := c08_map_validate O vf rest h.2
+    cases k <;> simp at h
+    rename_i ks
+    cases hv : validate O vf w with
+    | error e => simp [hv, Except.toBool] at h
+    | ok w' =>
+      exact ⟨(.str ks, w') :: r', by simp only [mapE, hv, hr', c08_validate_strkey, bindE_ok]⟩
+
 /-! ### the main induction: fields, elements and nested classes -/
 
 mutual
@@ -336,45 +397,45 @@ mutual
     depth): a JSON document value that the field's schema admits is not null and is accepted by
     `deserialize_single_field` and then by the field's validation -/
 theorem c08_exactN (O : Oracles) (S : String → String → Bool)
-    (hS : ∀ p s, startAnchored p = true → S p s = true → O.reMatch p s = true) (opts : DeserOpts) (D : Defs) :
-    ∀ (f : FieldDecl) (n : Nat) (ign : Bool) (v : PyVal), exactF f = true → RefsFaithful D f →
+    (hS : ∀ p s, startAnchored p = true → S p s = true → O.reMatch p s = true) (D : Defs) :
+    ∀ (f : FieldDecl) (n : Nat) (opts : DeserOpts) (ign : Bool) (v : PyVal), exactF f = true → RefsFaithful D f →
       refDepth f ≤ n → jsonDoc v = true → jsV (resolver D S n) S (emit true f) v = true →
       v.isNone = false ∧ Accepted O opts ign f v
-  | .seqOf k f sz, n, ign, v, hf, hrf, hd, hj, h => by
+  | .seqOf k f sz, n, opts, ign, v, hf, hrf, hd, hj, h => by
     simp only [exactF, and_true_iff'] at hf
-    have hk : k = .list := by simpa using hf.1.1
+    have hk : k = .list := by simpa using hf.1.1.1
     subst hk
-    have hu : sz.uniq = false := by simpa using hf.1.2
+    have hu : sz.uniq = false := by simpa using hf.1.1.2
     simp only [RefsFaithful] at hrf
     simp only [refDepth] at hd
-    simp only [emit] at h
+    simp only [emit, c08_elemWrap_exact f _ (by simpa using hf.1.2)] at h
     obtain ⟨xs, rfl, hsz, hall⟩ := c08_jsV_arrOf_inv _ S sz (emit true f) (emit_shape true f) v h
     simp only [jsonDoc] at hj
     obtain ⟨ys, ys', hdd, hv, hl⟩ := c08_exact_items O opts f
       (fun x => jsonDoc x = true ∧ jsV (resolver D S n) S (emit true f) x = true)
-      (fun x hx => (c08_exactN O S hS opts D f n false x hf.2 hrf hd hx.1 hx.2).2) xs
+      (fun x hx => (c08_exactN O S hS D f n opts false x hf.2 hrf hd hx.1 hx.2).2) xs
       (fun x hx => ⟨c08_jsonDocL_mem xs hj x hx, List.all_eq_true.mp hall x hx⟩)
     refine ⟨rfl, .list ys, .list ys', ?_, ?_⟩
     · simp [deser, PyVal.isNone, dSeq, docSeq, hdd, toValueErr, mkSeq]
     · have hl' : ys.length = xs.length := hl
       simp [validate, vSeq, seqElems, uniqOk, hu, hl', hsz, hv, mkSeq]
-  | .tupleOf f u, n, ign, v, hf, hrf, hd, hj, h => by
+  | .tupleOf f u, n, opts, ign, v, hf, hrf, hd, hj, h => by
     simp only [exactF, and_true_iff'] at hf
-    have hu : u = false := by simpa using hf.1
+    have hu : u = false := by simpa using hf.1.1
     subst hu
     simp only [RefsFaithful] at hrf
     simp only [refDepth] at hd
-    simp only [emit] at h
+    simp only [emit, c08_elemWrap_exact f _ (by simpa using hf.1.2)] at h
     obtain ⟨xs, rfl, _, hall⟩ := c08_jsV_arrOf_inv _ S { uniq := false } (emit true f) (emit_shape true f) v h
     simp only [jsonDoc] at hj
     obtain ⟨ys, ys', hdd, hv, _⟩ := c08_exact_items O opts f
       (fun x => jsonDoc x = true ∧ jsV (resolver D S n) S (emit true f) x = true)
-      (fun x hx => (c08_exactN O S hS opts D f n false x hf.2 hrf hd hx.1 hx.2).2) xs
+      (fun x hx => (c08_exactN O S hS D f n opts false x hf.2 hrf hd hx.1 hx.2).2) xs
       (fun x hx => ⟨c08_jsonDocL_mem xs hj x hx, List.all_eq_true.mp hall x hx⟩)
     refine ⟨rfl, .tuple ys, .tuple ys', ?_, ?_⟩
     · simp [deser, PyVal.isNone, dSeq, docSeq, hdd, toValueErr]
     · simp [validate, vTuple, uniqOk, hv]
-  | .struct c fields defaults, n, ign, v, hf, hrf, hd, hj, h => by
+  | .struct c fields defaults, n, opts, ign, v, hf, hrf, hd, hj, h => by
     simp only [exactF, and_true_iff'] at hf
     obtain ⟨⟨⟨⟨⟨hni, hdef⟩, hacc0⟩, hnd⟩, hreqn⟩, hex⟩ := hf
     have hin : c.inline = false := by simpa using hni
@@ -399,7 +460,7 @@ theorem c08_exactN (O : Oracles) (S : String → String → Bool)
       rw [emitP_names] at haddl
       obtain ⟨attrs, hcore⟩ := c08_class_core O opts c fields kvs kw hkw hnd hreqn
         (fun nm f hm w hw =>
-          c08_exactN_fields O S hS opts D fields m hex hrf.2 (by omega) nm f hm c.ignoreNone w
+          c08_exactN_fields O S hS D fields m hex hrf.2 (by omega) nm f hm opts c.ignoreNone w
             (hkwdoc (nm, w) (c08_lookup_mem_kw nm w kw hw))
             (hprops nm (emit true f) (c08_emitP_mem_of true nm f fields hm) w
               (by rw [← c08_lookup_kwOfDict nm kvs kw hkw]; exact hw)))
@@ -409,69 +470,141 @@ theorem c08_exactN (O : Oracles) (S : String → String → Bool)
         exact hcore
       · have hmem : c.name ∈ c.accepts := by simpa using hacc0
         simp [validate, hin, vClassRef, hmem]
-  | .number o, n, ign, v, hf, _, _, _, h => by
+  | .anyOf [g, .noneF], n, opts, ign, v, hf, hrf, hd, hj, h => by
+    have hg : exactF g = true := by simpa [exactF, exactOpt] using hf
+    simp only [RefsFaithful, RefsFaithfulL] at hrf
+    simp only [refDepth, refDepthL] at hd
+    have hemit : emit true (.anyOf [g, .noneF]) = emit true g := by simp [emit, anyOfShape, emitL]
+    rw [hemit] at h
+    obtain ⟨hnn, y, y', hdd, hv⟩ := c08_exactN O S hS D g n opts false v hg hrf.1 (by omega) hj h
+    refine ⟨hnn, y, y', ?_, ?_⟩
+    · simp [deser, hnn, deserAny, hdd]
+    · simp [validate, validateAny, hv]
+  | .number o, n, opts, ign, v, hf, _, _, _, h => by
     have hf' : exactScalar (.number o) = true := by simpa [exactF] using hf
     refine ⟨?_, exact_scalar O _ S hS opts ign _ v hf' h⟩
     cases v <;> simp [PyVal.isNone]
     rw [c08_exact_not_null _ S _ hf'] at h; cases h
-  | .integer o, n, ign, v, hf, _, _, _, h => by
+  | .integer o, n, opts, ign, v, hf, _, _, _, h => by
     have hf' : exactScalar (.integer o) = true := by simpa [exactF] using hf
     refine ⟨?_, exact_scalar O _ S hS opts ign _ v hf' h⟩
     cases v <;> simp [PyVal.isNone]
     rw [c08_exact_not_null _ S _ hf'] at h; cases h
-  | .float o, n, ign, v, hf, _, _, _, h => by
+  | .float o, n, opts, ign, v, hf, _, _, _, h => by
     have hf' : exactScalar (.float o) = true := by simpa [exactF] using hf
     refine ⟨?_, exact_scalar O _ S hS opts ign _ v hf' h⟩
     cases v <;> simp [PyVal.isNone]
     rw [c08_exact_not_null _ S _ hf'] at h; cases h
-  | .string lo hi pat, n, ign, v, hf, _, _, _, h => by
+  | .string lo hi pat, n, opts, ign, v, hf, _, _, _, h => by
     have hf' : exactScalar (.string lo hi pat) = true := by simpa [exactF] using hf
     refine ⟨?_, exact_scalar O _ S hS opts ign _ v hf' h⟩
     cases v <;> simp [PyVal.isNone]
     rw [c08_exact_not_null _ S _ hf'] at h; cases h
-  | .boolean, n, ign, v, _, _, _, _, h => by
+  | .boolean, n, opts, ign, v, _, _, _, _, h => by
     refine ⟨?_, exact_scalar O _ S hS opts ign _ v rfl h⟩
     cases v <;> simp [PyVal.isNone]
     rw [c08_exact_not_null _ S _ rfl] at h; cases h
-  | .enumLit vs, n, ign, v, hf, _, _, _, h => by
+  | .enumLit vs, n, opts, ign, v, hf, _, _, _, h => by
     have hf' : exactScalar (.enumLit vs) = true := by simpa [exactF] using hf
     refine ⟨?_, exact_scalar O _ S hS opts ign _ v hf' h⟩
     cases v <;> simp [PyVal.isNone]
     rw [c08_exact_not_null _ S _ hf'] at h; cases h
-  | .enumCls cn names, n, ign, v, hf, _, _, _, h => by
+  | .enumCls cn names, n, opts, ign, v, hf, _, _, _, h => by
     have hf' : exactScalar (.enumCls cn names) = true := by simpa [exactF] using hf
     refine ⟨?_, exact_scalar O _ S hS opts ign _ v hf' h⟩
     cases v <;> simp [PyVal.isNone]
     rw [c08_exact_not_null _ S _ hf'] at h; cases h
-  | .seqAny _ _, _, _, _, hf, _, _, _, _ => by simp [exactF] at hf
-  | .seqPos _ _ _ _, _, _, _, hf, _, _, _, _ => by simp [exactF] at hf
-  | .setAny _ _, _, _, _, hf, _, _, _, _ => by simp [exactF] at hf
-  | .setOf _ _ _, _, _, _, hf, _, _, _, _ => by simp [exactF] at hf
-  | .tuplePos _ _, _, _, _, hf, _, _, _, _ => by simp [exactF] at hf
-  | .mapAny _, _, _, _, hf, _, _, _, _ => by simp [exactF] at hf
-  | .mapOf _ _ _, _, _, _, hf, _, _, _, _ => by simp [exactF] at hf
-  | .anyOf _, _, _, _, hf, _, _, _, _ => by simp [exactF] at hf
-  | .oneOf _, _, _, _, hf, _, _, _, _ => by simp [exactF] at hf
-  | .allOf _, _, _, _, hf, _, _, _, _ => by simp [exactF] at hf
-  | .notF _, _, _, _, hf, _, _, _, _ => by simp [exactF] at hf
-  | .noneF, _, _, _, hf, _, _, _, _ => by simp [exactF] at hf
-  | .anything, _, _, _, hf, _, _, _, _ => by simp [exactF] at hf
+  | .seqAny _ _, _, _, _, _, hf, _, _, _, _ => by simp [exactF] at hf
+  | .seqPos _ _ _ _, _, _, _, _, hf, _, _, _, _ => by simp [exactF] at hf
+  | .setAny _ _, _, _, _, _, hf, _, _, _, _ => by simp [exactF] at hf
+  | .setOf _ _ _, _, _, _, _, hf, _, _, _, _ => by simp [exactF] at hf
+  | .tuplePos _ _, _, _, _, _, hf, _, _, _, _ => by simp [exactF] at hf
+  | .mapAny _, _, _, _, _, hf, _, _, _, _ => by simp [exactF] at hf
+  | .mapOf k vf sz, n, opts, ign, v, hf, hrf, hd, hj, h => by
+    simp only [exactF, and_true_iff'] at hf
+    obtain ⟨⟨⟨⟨hkey, hmin⟩, hmax⟩, hnopt⟩, hvf⟩ := hf
+    have hk : k = .string none none none := by
+      cases k <;> simp [exactKey] at hkey
+      rename_i lo hi pat
+      cases lo <;> cases hi <;> cases pat <;> simp [exactKey] at hkey
+      rfl
+    subst hk
+    have hmin' : sz.min = none := by simpa using hmin
+    have hmax' : sz.max = none := by simpa using hmax
+    simp only [RefsFaithful] at hrf
+    simp only [refDepth] at hd
+    have hszeq : mapKws (some (FieldDecl.string none none none)) (some (emit true vf)) sz
+        = mapKws (some (FieldDecl.string none none none)) (some (emit true vf)) {} := by
+      simp [mapKws, hmin', hmax']
+    simp only [emit, c08_elemWrap_exact vf _ (by simpa using hnopt), hszeq] at h
+    obtain ⟨kvs, rfl, hall⟩ := c08_jsV_mapOf_inv _ S _ (emit true vf) (emit_shape true vf) (by decide) v h
+    simp only [jsonDoc] at hj
+    obtain ⟨r, hr, hrall⟩ := c08_map_entries O opts vf
+      (fun w => jsonDoc w = true ∧ jsV (resolver D S n) S (emit true vf) w = true)
+      (fun w hw => (c08_exactN O S hS D vf n opts false w hvf hrf hd hw.1 hw.2).2)
+      kvs hj (fun kv hkv => ⟨c08_jsonDocP_mem kvs hj kv hkv, List.all_eq_true.mp hall kv hkv⟩)
+    refine ⟨rfl, .dict (dictOfPairs r), ?_⟩
+    have hsz : ∀ m, sizeOk sz m = true := by intro m; simp [sizeOk, hmin', hmax', geLen, leLen]
+    obtain ⟨r', hr'⟩ := c08_map_validate O vf (dictOfPairs r)
+      (dictOfPairs_all _ (fun kk => match kk with | .str _ => true | _ => false)
+        (fun w => (validate O vf w).toBool) (fun kv => rfl) r hrall)
+    refine ⟨.dict (dictOfPairs r'), ?_, ?_⟩
+    · have hnu : r.any (fun kv => unhashable kv.1) = false := by
+        rw [List.any_eq_false]
+        intro kv hkv
+        have := List.all_eq_true.mp hrall kv hkv
+        simp only [and_true_iff'] at this
+        cases hk1 : kv.1 <;> simp [hk1] at this <;> simp [unhashable]
+      rw [deser]
+      simp only [PyVal.isNone, Bool.false_and, Bool.false_eq_true, if_false, dMap, hr, bindE_ok, hnu]
+    · rw [validate]
+      simp only [vMap, hsz, Bool.not_true, Bool.false_eq_true, if_false, hr', bindE_ok]
+  | .anyOf [], _, _, _, _, hf, _, _, _, _ => by simp [exactF, exactOpt] at hf
+  | .anyOf [_], _, _, _, _, hf, _, _, _, _ => by simp [exactF, exactOpt] at hf
+  | .anyOf (_ :: _ :: _ :: _), _, _, _, _, hf, _, _, _, _ => by simp [exactF, exactOpt] at hf
+  | .anyOf [_, .number _], _, _, _, _, hf, _, _, _, _ => by simp [exactF, exactOpt] at hf
+  | .anyOf [_, .integer _], _, _, _, _, hf, _, _, _, _ => by simp [exactF, exactOpt] at hf
+  | .anyOf [_, .float _], _, _, _, _, hf, _, _, _, _ => by simp [exactF, exactOpt] at hf
+  | .anyOf [_, .string _ _ _], _, _, _, _, hf, _, _, _, _ => by simp [exactF, exactOpt] at hf
+  | .anyOf [_, .boolean], _, _, _, _, hf, _, _, _, _ => by simp [exactF, exactOpt] at hf
+  | .anyOf [_, .enumLit _], _, _, _, _, hf, _, _, _, _ => by simp [exactF, exactOpt] at hf
+  | .anyOf [_, .enumCls _ _], _, _, _, _, hf, _, _, _, _ => by simp [exactF, exactOpt] at hf
+  | .anyOf [_, .seqAny _ _], _, _, _, _, hf, _, _, _, _ => by simp [exactF, exactOpt] at hf
+  | .anyOf [_, .seqOf _ _ _], _, _, _, _, hf, _, _, _, _ => by simp [exactF, exactOpt] at hf
+  | .anyOf [_, .seqPos _ _ _ _], _, _, _, _, hf, _, _, _, _ => by simp [exactF, exactOpt] at hf
+  | .anyOf [_, .setAny _ _], _, _, _, _, hf, _, _, _, _ => by simp [exactF, exactOpt] at hf
+  | .anyOf [_, .setOf _ _ _], _, _, _, _, hf, _, _, _, _ => by simp [exactF, exactOpt] at hf
+  | .anyOf [_, .tupleOf _ _], _, _, _, _, hf, _, _, _, _ => by simp [exactF, exactOpt] at hf
+  | .anyOf [_, .tuplePos _ _], _, _, _, _, hf, _, _, _, _ => by simp [exactF, exactOpt] at hf
+  | .anyOf [_, .mapAny _], _, _, _, _, hf, _, _, _, _ => by simp [exactF, exactOpt] at hf
+  | .anyOf [_, .mapOf _ _ _], _, _, _, _, hf, _, _, _, _ => by simp [exactF, exactOpt] at hf
+  | .anyOf [_, .struct _ _ _], _, _, _, _, hf, _, _, _, _ => by simp [exactF, exactOpt] at hf
+  | .anyOf [_, .anyOf _], _, _, _, _, hf, _, _, _, _ => by simp [exactF, exactOpt] at hf
+  | .anyOf [_, .oneOf _], _, _, _, _, hf, _, _, _, _ => by simp [exactF, exactOpt] at hf
+  | .anyOf [_, .allOf _], _, _, _, _, hf, _, _, _, _ => by simp [exactF, exactOpt] at hf
+  | .anyOf [_, .notF _], _, _, _, _, hf, _, _, _, _ => by simp [exactF, exactOpt] at hf
+  | .anyOf [_, .anything], _, _, _, _, hf, _, _, _, _ => by simp [exactF, exactOpt] at hf
+  | .oneOf _, _, _, _, _, hf, _, _, _, _ => by simp [exactF] at hf
+  | .allOf _, _, _, _, _, hf, _, _, _, _ => by simp [exactF] at hf
+  | .notF _, _, _, _, _, hf, _, _, _, _ => by simp [exactF] at hf
+  | .noneF, _, _, _, _, hf, _, _, _, _ => by simp [exactF] at hf
+  | .anything, _, _, _, _, hf, _, _, _, _ => by simp [exactF] at hf
 
 theorem c08_exactN_fields (O : Oracles) (S : String → String → Bool)
-    (hS : ∀ p s, startAnchored p = true → S p s = true → O.reMatch p s = true) (opts : DeserOpts) (D : Defs) :
+    (hS : ∀ p s, startAnchored p = true → S p s = true → O.reMatch p s = true) (D : Defs) :
     ∀ (fields : List (String × FieldDecl)) (n : Nat), exactFields fields = true → RefsFaithfulP D fields →
-      refDepthP fields ≤ n → ∀ name f, (name, f) ∈ fields → ∀ (ign : Bool) (v : PyVal), jsonDoc v = true →
+      refDepthP fields ≤ n → ∀ name f, (name, f) ∈ fields → ∀ (opts : DeserOpts) (ign : Bool) (v : PyVal), jsonDoc v = true →
       jsV (resolver D S n) S (emit true f) v = true → v.isNone = false ∧ Accepted O opts ign f v
-  | [], _, _, _, _, _, _, hm, _, _, _, _ => by simp at hm
-  | (k, g) :: fields, n, hf, hrf, hd, name, f, hm, ign, v, hj, h => by
+  | [], _, _, _, _, _, _, hm, _, _, _, _, _ => by simp at hm
+  | (k, g) :: fields, n, hf, hrf, hd, name, f, hm, opts, ign, v, hj, h => by
     simp only [exactFields, and_true_iff'] at hf
     simp only [RefsFaithfulP] at hrf
     simp only [refDepthP] at hd
     rcases List.mem_cons.mp hm with heq | hm'
     · have heq' : g = f := (Prod.mk.inj heq).2.symm
       subst heq'
-      exact c08_exactN O S hS opts D g n ign v hf.1 hrf.1 (by omega) hj h
-    · exact c08_exactN_fields O S hS opts D fields n hf.2 hrf.2 (by omega) name f hm' ign v hj h
+      exact c08_exactN O S hS D g n opts ign v hf.1 hrf.1 (by omega) hj h
+    · exact c08_exactN_fields O S hS D fields n hf.2 hrf.2 (by omega) name f hm' opts ign v hj h
 end
 
 /-- **class level of exactness**: for a class of `inExactFragment` every JSON object that the class's
@@ -503,7 +636,7 @@ theorem c08_exact_class (O : Oracles) (S : String → String → Bool)
     rw [emitP_names] at haddl
     obtain ⟨attrs, hcore⟩ := c08_class_core O opts c fields kvs kw hkw hnd hreqn
       (fun nm f hm w hw =>
-        c08_exactN_fields O S hS opts D fields n hex hrefs (by omega) nm f hm c.ignoreNone w
+        c08_exactN_fields O S hS D fields n hex hrefs (by omega) nm f hm opts c.ignoreNone w
           (hkwdoc (nm, w) (c08_lookup_mem_kw nm w kw hw))
           (hprops nm (emit true f) (c08_emitP_mem_of true nm f fields hm) w
             (by rw [← c08_lookup_kwOfDict nm kvs kw hkw]; exact hw)))
